@@ -350,7 +350,10 @@ func streamC08Gw(env *runEnv) {
 					resps = append(resps, m)
 				}
 			}
-			chunk := func(p []byte) { l.in.Write([]byte(fmt.Sprintf("%x\r\n%s\r\n", len(p), p))); time.Sleep(25 * time.Millisecond) }
+			chunk := func(p []byte) {
+				l.in.Write([]byte(fmt.Sprintf("%x\r\n%s\r\n", len(p), p)))
+				time.Sleep(25 * time.Millisecond)
+			}
 			for _, p := range pk[:4] {
 				chunk(p)
 				get()
